@@ -19,6 +19,12 @@ type OriginOpts struct {
 	ThroughCalls     func(c *ssa.Call) []ssa.Value // if non-nil: for a call leaf, operands it derives from (e.g. bound-method / wrapper summaries)
 	ThroughBinOp     bool // arithmetic: both operands
 	ThroughIndex     bool // *(&x[i]) and x[i] derive from x
+	// Interproc: a parameter derives from the arguments at every call site of its function (in the repo), and the result of
+	// a call to a repo function with a single resolved callee derives from that callee's returned values. This makes
+	// provenance rules insensitive to helper extraction / inlining.
+	Interproc bool
+	// Stop: values satisfying Stop are leaves (tested before descending); AllFrom/AnyFrom set it to their predicate.
+	Stop func(ssa.Value) bool
 }
 
 // Origins returns the leaf values v may derive from. Phi nodes contribute all their operands; loads of
@@ -38,6 +44,37 @@ func (p *Prog) Origins(v ssa.Value, o OriginOpts) []ssa.Value {
 		if d > 64 {
 			leaf(v)
 			return
+		}
+		if o.Stop != nil && o.Stop(v) {
+			leaf(v)
+			return
+		}
+		if o.Interproc {
+			switch x := v.(type) {
+			case *ssa.Parameter:
+				if args := p.paramArgs(x); len(args) > 0 {
+					for _, a := range args {
+						walk(a, d+1)
+					}
+					return
+				}
+			case *ssa.Call:
+				if rs := p.callResults(x, 0); rs != nil && x.Call.Signature().Results().Len() == 1 {
+					for _, r := range rs {
+						walk(r, d+1)
+					}
+					return
+				}
+			case *ssa.Extract:
+				if call, ok := x.Tuple.(*ssa.Call); ok {
+					if rs := p.callResults(call, x.Index); rs != nil {
+						for _, r := range rs {
+							walk(r, d+1)
+						}
+						return
+					}
+				}
+			}
 		}
 		switch x := v.(type) {
 		case *ssa.Phi:
@@ -155,8 +192,77 @@ func (p *Prog) Origins(v ssa.Value, o OriginOpts) []ssa.Value {
 // Plain looks through conversions, slices and cells only.
 var Plain = OriginOpts{ThroughSlice: true, ThroughConvert: true}
 
+// paramArgs: the arguments bound to parameter x at every call site of its function inside the repo (nil when the
+// function has no repo call site, or is also called from outside the repo, or x is a closure's free variable).
+func (p *Prog) paramArgs(x *ssa.Parameter) []ssa.Value {
+	fn := x.Parent()
+	if fn == nil || !p.InRepo(fn) {
+		return nil
+	}
+	idx := -1
+	for i, q := range fn.Params {
+		if q == x {
+			idx = i
+		}
+	}
+	if idx < 0 {
+		return nil
+	}
+	if n := p.CG.Nodes[fn]; n != nil {
+		for _, in := range n.In {
+			if !p.InRepo(in.Caller.Func) && !isWrapper(in.Caller.Func) {
+				return nil
+			}
+		}
+	}
+	var out []ssa.Value
+	for _, s := range p.CallSitesOf(fn) {
+		cc := s.Ins.(ssa.CallInstruction).Common()
+		if cc.IsInvoke() {
+			if idx == 0 {
+				out = append(out, cc.Value)
+			} else if idx-1 < len(cc.Args) {
+				out = append(out, cc.Args[idx-1])
+			}
+			continue
+		}
+		// bound-method closures and function values: argument positions may be shifted; only handle direct static calls
+		if cc.StaticCallee() == nil {
+			return nil
+		}
+		if idx < len(cc.Args) {
+			out = append(out, cc.Args[idx])
+		}
+	}
+	return out
+}
+
+// callResults: the values returned as result idx by the (single, repo) callee of call; nil if not applicable.
+func (p *Prog) callResults(call *ssa.Call, idx int) []ssa.Value {
+	callees := p.Callees(call)
+	if len(callees) != 1 || !p.InRepo(callees[0]) || len(callees[0].Blocks) == 0 {
+		return nil
+	}
+	var out []ssa.Value
+	for _, r := range Returns(callees[0]) {
+		if r.Block().Comment == "recover" {
+			continue
+		}
+		if idx < len(r.Results) {
+			out = append(out, r.Results[idx])
+		}
+	}
+	return out
+}
+
+// Deep is Plain plus interprocedural provenance.
+var Deep = OriginOpts{ThroughSlice: true, ThroughConvert: true, Interproc: true}
+
 // AllFrom reports whether every origin leaf of v satisfies pred (and there is at least one).
 func (p *Prog) AllFrom(v ssa.Value, o OriginOpts, pred func(ssa.Value) bool) (bool, []ssa.Value) {
+	if o.Stop == nil {
+		o.Stop = pred
+	}
 	ls := p.Origins(v, o)
 	if len(ls) == 0 {
 		return false, nil
@@ -172,6 +278,9 @@ func (p *Prog) AllFrom(v ssa.Value, o OriginOpts, pred func(ssa.Value) bool) (bo
 
 // AnyFrom reports whether some origin leaf satisfies pred.
 func (p *Prog) AnyFrom(v ssa.Value, o OriginOpts, pred func(ssa.Value) bool) bool {
+	if o.Stop == nil {
+		o.Stop = pred
+	}
 	for _, l := range p.Origins(v, o) {
 		if pred(l) {
 			return true
